@@ -45,7 +45,13 @@ lines = C.lines
 
 
 def run(ctx):
-    C.run_prop(ctx, ID, MOD)
+    C.run_prop(ctx, ID, MOD, rule_extra=(
+        "C06 only: about 60 % of the metadata operations go through HELD NODE WRAPPERS (op `hmeta`, `ctr_common.add_wrappers`): several "
+        "live wrappers of one node, obtained by different navigation routes (mc[path], get, segment by segment, parent of a child, "
+        "values() of the parent, visititems, query results, the container object itself for the root), kept across later operations "
+        "(incl. move / copy / delete of the node; h5py handles follow a moved node) and used in turn, `.meta` taken afresh at each use; "
+        "preferably through the wrapper that has not seen the latest changes, removing what it attached itself. To the model every "
+        "such sub-operation is one `meta` operation with a newly opened handle."))
 
 
 def signature(case, detail):
